@@ -870,7 +870,7 @@ pub fn run_history(ops: &[QOp]) -> Option<(usize, Fail)> {
 
 // --- workloads -------------------------------------------------------------------------------
 
-const UK: [&str; 11] = ["a", "A", "b", "B", "c", "", "!", "a b", "é", "\u{212A}", "a\u{17F}"];
+const UK: [&str; 13] = ["a", "A", "b", "B", "c", "", "!", "a b", "é", "\u{212A}", "a\u{17F}", "a²", "١"];
 const UV: [&str; 3] = ["", "x", "Y"];
 
 fn universe_ops() -> Vec<QOp> {
@@ -940,7 +940,7 @@ fn universe_ops() -> Vec<QOp> {
     for seed in 0..6 {
         v.push(QOp::Rebuild(seed));
     }
-    let pair_sets: [&[(&str, &str)]; 8] = [
+    let pair_sets: [&[(&str, &str)]; 10] = [
         &[],
         &[("a", "x")],
         &[("A", "x")],
@@ -949,6 +949,8 @@ fn universe_ops() -> Vec<QOp> {
         &[("a", "x"), ("!", "x")],
         &[("", "x")],
         &[("c", "x"), ("b", "x"), ("a", "x")],
+        &[("b", "1"), ("a", "2"), ("b", "3")],
+        &[("b", "1"), ("a", "2"), ("B", "1")],
     ];
     for ps in pair_sets {
         let ps: Vec<(String, String)> = ps.iter().map(|(k, v)| (s(k), s(v))).collect();
